@@ -337,12 +337,21 @@ def snap_built(b):
     return out
 
 
+def _choice(x):
+    """(matched, has_test, value) of a choice-stack entry; the code keeps a 3-item list, but a change of
+    representation must show up as a disagreement or an oracle failure, never as a harness crash"""
+    try:
+        return (x[0], x[1], x[2])
+    except Exception:
+        return (getattr(x, 'matched', None), getattr(x, 'expr', None) is not None, getattr(x, 'value', None))
+
+
 def snap_ctx(ctxt):
     out = {}
     out[('frames',)] = tuple(id(f) for f in ctxt.frames)
     for i, f in enumerate(ctxt.frames):
         out[('frame', i)] = tuple((str(k), repr(canon_val(f[k]))) for k in f)
-    out[('choice',)] = repr([canon_val(list(x)) for x in ctxt._choice_stack])
+    out[('choice',)] = repr([canon_val(list(_choice(x))) for x in ctxt._choice_stack])
     out[('match',)] = tuple((mt[1].source, tuple(sorted(mt[3])), len(mt[2])) for mt in ctxt._match_templates)
     return out
 
@@ -1144,7 +1153,7 @@ def twin_image(tspec):
 
 def wire_ctx(ctxt):
     frames = [[[str(k), wire_val(f[k], str(k))] for k in f] for f in ctxt.frames]
-    choice = [[proto.B(bool(c[0])), proto.B(bool(c[1])), wire_val(c[2])] for c in reversed(ctxt._choice_stack)]
+    choice = [[proto.B(bool(c[0])), proto.B(bool(c[1])), wire_val(c[2])] for c in map(_choice, reversed(ctxt._choice_stack))]
     mts = [[mt[1].source, proto.B('match_once' in mt[3])] for mt in ctxt._match_templates]
     return [frames, choice, mts]
 
